@@ -36,9 +36,10 @@ def vrate (sign v : Nat) : Outcome (Option Int) :=
     let c ← mulS 16 b 64
     pure (some c)
 
-/-- `read_geobaro`: `if value > 1 { Some(±25 * (value as i16 - 1)) } else { None }` -/
+/-- `read_geobaro`: `if value > 0 { Some(±25 * (value as i16 - 1)) } else { None }`
+    (code 1 = 0 ft; before the C03 repair the test was `value > 1`) -/
 def geoBaro (sign value : Nat) : Outcome (Option Int) :=
-  if value > 1 then do
+  if value > 0 then do
     let a ← subS 16 (value : Int) 1
     let b ← mulS 16 (if sign == 0 then 25 else -25) a
     pure (some b)
